@@ -9,6 +9,11 @@ NEW_HEADER = """    pub fn new(ranges: Vec<Range>) -> (r: Self)
         requires bounded(ranges@)
         ensures wf(r.0@), forall|s: int| covers(r.0@, s) <==> covers(ranges@, s)"""
 
+MERGE_ANOTHER_HEADER = """    pub fn merge_another(&mut self, range_list: &mut RangeList)
+        requires bounded(old(self).0@), bounded(old(range_list).0@)
+        ensures wf(final(self).0@), final(range_list).0@.len() == 0,
+            forall|s: int| covers(final(self).0@, s) <==> (covers(old(self).0@, s) || covers(old(range_list).0@, s))"""
+
 def build(U):
     C = U.src('src/common/cluster.rs')
     U.add('''use vstd::prelude::*;
@@ -43,10 +48,7 @@ global size_of usize == 8;
     g.before("Self(vec![range])", "        proof { assert forall|s: int| covers(seq![range], s) <==> lo(r0) <= s <= hi(r0) by { if lo(r0) <= s <= hi(r0) { assert(lo(seq![range][0]) <= s <= hi(seq![range][0])); } } }")
     U.add_fn(g)
     g = C.fn('merge_another', within=r'impl RangeList\b')
-    g.header("""    pub fn merge_another(&mut self, range_list: &mut RangeList)
-        requires bounded(old(self).0@), bounded(old(range_list).0@)
-        ensures wf(final(self).0@), final(range_list).0@.len() == 0,
-            forall|s: int| covers(final(self).0@, s) <==> (covers(old(self).0@, s) || covers(old(range_list).0@, s))""")
+    g.header(MERGE_ANOTHER_HEADER)
     g.after("self.0.append(&mut range_list.0);", """        proof {
             let a = old(self).0@; let b = old(range_list).0@;
             assert(self.0@ =~= a + b);
